@@ -55,30 +55,30 @@ type Sample struct {
 
 // WorkerResult is what one worker process reports to the driver.
 type WorkerResult struct {
-	Worker       int              `json:"worker"`
-	Property     string           `json:"property"`
-	Runs         int              `json:"runs"`
-	NonTrivial   []uint64         `json:"nontrivial_fingerprints"`
-	AllFPCount   int              `json:"distinct_fingerprints_all"`
-	SchedFPCount int              `json:"distinct_schedules"`
-	SchedFPs     []uint64         `json:"sched_fps,omitempty"`
-	Ops          map[string]int   `json:"ops"`
-	Faults       map[string]int   `json:"faults_fired"`
-	Probes       map[string]int   `json:"probes"`
-	Extra        map[string]int64 `json:"extra"`
-	KnownHits    map[string]int   `json:"known_hits"`
-	OracleEvals  int64            `json:"oracle_evals"`
-	SimSpanNs    float64          `json:"sim_span_ns"`
-	Steps        int64            `json:"steps"`
-	Switches     int64            `json:"switches"`
-	Samples      []Sample         `json:"samples"`
-	Violation    *ReplayFile      `json:"violation,omitempty"`
-	WallS        float64          `json:"wall_s"`
-	Rule         string           `json:"rule"`
-	Real         []string         `json:"real"`
-	Stubbed      []string         `json:"stubbed"`
-	Assume       []string         `json:"assume"`
-	Error        string           `json:"error,omitempty"`
+	Worker       int               `json:"worker"`
+	Property     string            `json:"property"`
+	Runs         int               `json:"runs"`
+	NonTrivial   []uint64          `json:"nontrivial_fingerprints"`
+	AllFPCount   int               `json:"distinct_fingerprints_all"`
+	SchedFPCount int               `json:"distinct_schedules"`
+	SchedFPs     []uint64          `json:"sched_fps,omitempty"`
+	Ops          map[string]int    `json:"ops"`
+	Faults       map[string]int    `json:"faults_fired"`
+	Probes       map[string]int    `json:"probes"`
+	Extra        map[string]int64  `json:"extra"`
+	KnownHits    map[string]int    `json:"known_hits"`
+	OracleEvals  int64             `json:"oracle_evals"`
+	SimSpanNs    float64           `json:"sim_span_ns"`
+	Steps        int64             `json:"steps"`
+	Switches     int64             `json:"switches"`
+	Samples      []Sample          `json:"samples"`
+	Violation    *ReplayFile       `json:"violation,omitempty"`
+	WallS        float64           `json:"wall_s"`
+	Rule         string            `json:"rule"`
+	Real         []string          `json:"real"`
+	Stubbed      []string          `json:"stubbed"`
+	Assume       []string          `json:"assume"`
+	Error        string            `json:"error,omitempty"`
 	Traces       map[string]string `json:"traces,omitempty"` // run index -> trace hash (VERIF_TRACE=1)
 }
 
